@@ -108,6 +108,14 @@ def rw_trace(tier, tag, p=3, runs=None, variant="default"):
     if summ.get("hang"):
         summ.update({"runs": 0, "events": 0, "panics": 0, "p": p})
         open(trace, "a").close()
+        good = []
+        for l in open(trace, errors="replace").read().splitlines():      # the recorder was cut off mid-line
+            try:
+                json.loads(l)
+                good.append(l)
+            except ValueError:
+                break
+        open(trace, "w").write("".join(x + "\n" for x in good))
     panics = [r for r in recs if r["kind"] == "finding"]
     for r in panics:
         if r["prop"] == "*":
